@@ -151,6 +151,9 @@ vh::Outcome run_trigger(const vh::Case& c) {
     long n_activate_called = 0, n_trigger_called = 0, n_reset_called = 0;
     bool lbl_blocked_wait = false, lbl_timeout = false, lbl_wait_released = false;
     std::vector<long> trig_ret(ctl.size(), -1);      // step at which the i-th controller op (a successful trigger) returned
+    long last_act_call = init_active ? 0 : -1;       // call step of the latest activate() that the model says succeeds
+    long last_tr_call = -1;                          // call step of the latest trigger()/reset()
+    bool lbl_probe = false;
     out.res = vrt::run(c.sched, [&] {
         gc::TriggerVariable tv(init_active);
         std::vector<std::unique_ptr<Tracked>> datum;
@@ -162,7 +165,7 @@ vh::Outcome run_trigger(const vh::Case& c) {
                 int k = ctl[i];
                 if (k == K_TRIGGER && cur.A) datum[i]->set(uint64_t(55));     // published by the trigger
                 ctl_in_flight = true;
-                if (k == K_ACTIVATE) n_activate_called++; else if (k == K_TRIGGER) n_trigger_called++; else n_reset_called++;
+                if (k == K_ACTIVATE) { n_activate_called++; if (!cur.A) last_act_call = vrt::now_step(); } else { if (k == K_TRIGGER) n_trigger_called++; else n_reset_called++; last_tr_call = vrt::now_step(); }
                 bool exp = apply(cur, k);       // model is updated at call time; waiters abstain while a call is in flight
                 bool got = true;
                 if (k == K_ACTIVATE) got = tv.activate(); else if (k == K_TRIGGER) got = tv.trigger(); else tv.reset();
@@ -188,8 +191,14 @@ vh::Outcome run_trigger(const vh::Case& c) {
                     long a0 = n_activate_called, t0 = n_trigger_called, r0 = n_reset_called;
                     long b0 = vrt::me().blocking_ops;
                     long wait_call = vrt::now_step();
+                    // probe: a waiter that has itself seen the variable active may return from wait only after a trigger()/reset() that
+                    // was called after the activation it saw began (valid even while that activate() is still in flight)
+                    bool probed_active = false; long act_seen = -2;
+                    if ((kind == 0 || kind == 1) && (op.a & 1 || true) && (op.b & 1)) { if (tv.isActive()) { probed_active = true; act_seen = last_act_call; lbl_probe = true; } }
                     if (kind == 0 || kind == 1) {
                         bool r = kind == 0 ? tv.wait() : tv.wait_for(std::chrono::milliseconds(20));
+                        if (r && probed_active && act_seen >= 0 && last_tr_call < act_seen)
+                            vrt::fail("wait-early", "wait returned true although the waiter had seen the variable active and no trigger()/reset() was called after that activation began");
                         if (r) for (size_t ti = 0; ti < trig_ret.size(); ++ti) if (trig_ret[ti] >= 0 && trig_ret[ti] < wait_call && datum[ti]->read() != uint64_t(55))
                             vrt::fail("publication", "data written before trigger() is not visible to a wait() that began after the trigger returned");
                         bool blocked = vrt::me().blocking_ops != b0;
@@ -228,6 +237,7 @@ vh::Outcome run_trigger(const vh::Case& c) {
     if (lbl_blocked_wait) out.labels.push_back("waiter-blocked");
     if (lbl_wait_released) out.labels.push_back("blocked-waiter-released");
     if (lbl_timeout) out.labels.push_back("timed-out");
+    if (lbl_probe) out.labels.push_back("probed-active-before-wait");
     if (out.res.spurious_wakes) out.labels.push_back("spurious-wake");
     out.nontrivial = lbl_blocked_wait && !ctl.empty();
     return out;
